@@ -3,6 +3,7 @@ package main
 import (
 	"math"
 	"math/rand"
+	"sort"
 
 	comet "github.com/wizenheimer/comet"
 )
@@ -335,6 +336,42 @@ func genC19(r *rand.Rand, t *Trace, thorough bool) {
 			st = append(st, "fusion.ties")
 		}
 		t.Emit(c.B(mut), st...)
+	}
+	// ---- scoreMapToRanks (1908): the ranking step of reciprocal-rank fusion, ties included ----
+	for it := 0; it < 60*mult; it++ {
+		n := r.Intn(10)
+		if it%10 == 0 {
+			n = 40 + r.Intn(60)
+		}
+		m := map[uint32]float64{}
+		for i := 0; i < n; i++ {
+			id := uint32(1 + r.Intn(3*n+1))
+			switch it % 3 {
+			case 0:
+				m[id] = float64(r.Intn(3)) // many exact ties
+			case 1:
+				m[id] = rndScore64(r)
+			default:
+				m[id] = float64(r.Intn(4)) * 0.5
+				if r.Intn(6) == 0 {
+					m[id] = math.Inf(1 - 2*r.Intn(2))
+				}
+			}
+		}
+		asc := r.Intn(2) == 0
+		ranks := comet.VerifScoreMapToRanks(copyMap(m), asc)
+		c := NewCase(1908).B(asc)
+		emitMap(c, m)
+		c.N(len(ranks))
+		ids := make([]int, 0, len(ranks))
+		for id := range ranks {
+			ids = append(ids, int(id))
+		}
+		sort.Ints(ids)
+		for _, id := range ids {
+			c.U(uint64(id)).I(int64(ranks[uint32(id)]))
+		}
+		t.Emit(c, "fusion.ranks")
 	}
 	// ---- mergeResults (1907) ----
 	for it := 0; it < 80*mult; it++ {
